@@ -17,6 +17,7 @@ EXPLANATION = (
     "a guard on it (or clamp it), and reset the cursor only under such a guard - a history key that does not change the focused entry leaves "
     "the cursor alone, as a plain editor does."
     ' R1 also checks byte-index sinks (String::insert/remove/...: the position must be a boundary-safe byte offset). R4 also: update_next returns only with the draft focused (copy and focus reset on every path). R8: clearing the edit buffer is followed by cursor := 0 on every path to the return. R2 also: the count a step is guarded by is that of the line on show - get_current(), or the buffer once update_next dominates -, not of the hidden draft. R9: no function of the editor narrows a `char` to u8/u16 (`ch as u8`) outside an is_ascii test of that character. R10: no blank line is submitted - from the blank side of the draft test no `complete` answer is reachable, and the history list is only pushed to by TerminalHistory::push (from read_line, behind the raw read, with the buffer) and by the history-file loader behind a `trim().is_empty()` test. The scope of R3 is the whole terminal reader (read, read_line, the raw read, the prompt, the history push, the splitter); lace::output and lace::term are the environment side (not entered), a failed write to the terminal is assumption A7, and the non-blank assertion of read_line is conditional on R10. R6 also: the keys that only move (Left, Right, Ctrl+Left/Right, Up, Down) never call update_next. R10 also: the condition in front of the history push, read for an empty list, comes out on the pushing side (the first line is remembered).'
+    " R10 also: the routine that is handed the submitted line puts it into the in-memory list on every way to its return."
 )
 
 NOT_DECIDED = "equality with a reference editor for all key sequences; that helper results are <= the character count (value-level)"
@@ -512,9 +513,15 @@ def run(ctx):
                   any(v != 0 and c[0] == "un" and c[1] == "Not" and "is_empty" in expr_str(c, 200) and "trim" in expr_str(c, 200) for c, v in cons)
             if not okc:
                 why = "`%s` stores a line in the history list without testing that it is not blank" % short(n)
+        if why is None and val[0] == "arg":
+            # ... and the routine that is handed the submitted line remembers it whatever else it does with it (the history file may be
+            # missing or unwritable): no way from its entry to a return goes round the push into the list
+            rets_ = {b3 for b3 in f.live_blocks() if f.term(b3)["k"] == "return"}
+            if f.reachable(0, avoid={bb_}) & rets_:
+                why = "`%s` can return without having put the line it was handed into the list (the in-memory history then depends on the history file being writable)" % short(n)
         ctx.oblig(why is None, {"history push in": short(n), "at": sp_file_line(t_.get("sp"))}, "buffer of a finished read, or tested non-blank")
         if why:
-            ctx.violation("blank-history-line|%s" % short(n), sp_file_line(t_.get("sp")),
-                          "%s: with a blank line in the history (an edited or damaged history file), Up then Enter submits it - read_line's `should have read "
-                          "characters until non-empty` assertion panics in a debug build and an empty command is run otherwise" % why)
+            ctx.violation(("history-push-skipped|%s" if "can return without" in why else "blank-history-line|%s") % short(n), sp_file_line(t_.get("sp")),
+                          ("%s: Up and Down then recall nothing or an older line, and the line on screen is no longer the line that is edited and submitted" if "can return without" in why else "%s: with a blank line in the history (an edited or damaged history file), Up then Enter submits it - read_line's `should have read "
+                          "characters until non-empty` assertion panics in a debug build and an empty command is run otherwise") % why)
     ctx.finish_rule()
